@@ -127,7 +127,13 @@ func (k *Keyring) RemoveKey(key []byte) error {
 	}
 	for i, installedKey := range k.keys {
 		if bytes.Equal(key, installedKey) {
-			keys := append(k.keys[:i], k.keys[i+1:]...)
+			// Build the shortened list in a fresh slice: appending onto
+			// k.keys[:i] would shift the remaining keys inside the backing
+			// array that GetKeys has already handed out to callers (and
+			// that decryptPayload iterates without holding the lock).
+			keys := make([][]byte, 0, len(k.keys)-1)
+			keys = append(keys, k.keys[:i]...)
+			keys = append(keys, k.keys[i+1:]...)
 			k.installKeysLocked(keys, k.keys[0])
 		}
 	}
